@@ -18,6 +18,7 @@ import (
 
 	"github.com/ipfs/ipfs-cluster/pintracker/stateless"
 
+	"verif/harness/lib/clus"
 	"verif/harness/lib/ev"
 )
 
@@ -46,4 +47,14 @@ func TestRealConnectorSingles(t *testing.T) {
 		return
 	}
 	explore(t, "realconn-singles", 1, "full", singleFilters(), "vector", 90*time.Second)
+}
+
+// The same single-CID table with injected daemon failures looking like a
+// gateway's answer (502, HTML body) instead of go-ipfs's JSON error.
+func TestRealConnectorSinglesGatewayErrors(t *testing.T) {
+	clus.RealFailShape = "nonjson502"
+	defer func() { clus.RealFailShape = "" }()
+	realConn = true
+	defer func() { realConn = false }()
+	explore(t, "realconn-singles(failures=502-html)", 1, "full", singleFilters(), "vector", within(90*time.Second))
 }
